@@ -18,15 +18,16 @@ def ratA : AOps Rat :=
     neg := fun x => -x
     sub := (· - ·)
     inv := fun x => if x = 0 then none else some x⁻¹
-    exp := fun _ => none
-    log := fun _ => none
-    sqrt := fun _ => none
+    exp := fun x => if x = 0 then some 1 else none
+    log := fun x => if x = 1 then some 0 else none
+    sqrt := fun x => if x = 0 then some 0 else if x = 1 then some 1 else none
     conj := id
     absv := fun x => if x < 0 then -x else x
     ofRat := id
     toNat := ratToNat
     le := fun a b => some (decide (a ≤ b))
-    show_ := showRat }
+    show_ := showRat
+    analytic := false }
 
 /-- ℚ[i] -/
 structure GaussRat where
@@ -52,15 +53,16 @@ def gaussA : AOps GaussRat :=
     neg := GaussRat.neg
     sub := fun a b => GaussRat.add a (GaussRat.neg b)
     inv := GaussRat.inv
-    exp := fun _ => none
-    log := fun _ => none
+    exp := fun a => if a.re = 0 ∧ a.im = 0 then some ⟨1, 0⟩ else none
+    log := fun a => if a.re = 1 ∧ a.im = 0 then some ⟨0, 0⟩ else none
     sqrt := fun _ => none
     conj := GaussRat.conj
     absv := fun a => ⟨(if a.re < 0 then -a.re else a.re) + (if a.im < 0 then -a.im else a.im), 0⟩
     ofRat := fun q => ⟨q, 0⟩
     toNat := fun a => if a.im = 0 then ratToNat a.re else none
     le := fun _ _ => none
-    show_ := fun a => s!"{showRat a.re},{showRat a.im}" }
+    show_ := fun a => s!"{showRat a.re},{showRat a.im}"
+    analytic := false }
 
 /-- dual numbers `a + b ε`, `ε² = 0` -/
 structure Dual where
@@ -86,7 +88,8 @@ def dualA : AOps Dual :=
     ofRat := fun q => ⟨q, 0⟩
     toNat := fun a => ratToNat a.v
     le := fun a b => some (decide (a.v ≤ b.v))
-    show_ := fun a => s!"{showRat a.v},{showRat a.d}" }
+    show_ := fun a => s!"{showRat a.v},{showRat a.d}"
+    analytic := false }
 
 def floatOps : Ops Float := { zero := 0.0, one := 1.0, add := (· + ·), mul := (· * ·) }
 
@@ -105,6 +108,7 @@ def floatA : AOps Float :=
     ofRat := ratToFloat
     toNat := fun x => if x ≥ 0.0 ∧ x.floor == x then some x.toUInt64.toNat else none
     le := fun a b => some (decide (a ≤ b))
-    show_ := fun x => toString x.toBits }
+    show_ := fun x => toString x.toBits
+    analytic := true }
 
 end Cirkit
